@@ -159,12 +159,29 @@ class C12(Prop):
         for s in range(rng.choice([1, 1, 2])):
             bops.append(draw_solve(rng, b.P, "b_tau%d" % s, peer_mode=mode, allow_heuristic=(rng.random() < 0.2)))
             bops += observe_ops(rng, b)
-        return {"history": hist, "B": bops, "endings": endings,
+        # the session lets go of earlier models' objects at arbitrary points of B's build (rebinding variables,
+        # garbage collection): whatever finalizers exist run in the middle of B
+        nep = sum(1 for o in hist if o["op"] == "pep")
+        for kep in range(nep):
+            if rng.random() < 0.35:
+                pos = rng.randrange(1, len(bops) + 1)
+                bops.insert(pos, {"op": "release", "epoch": kep})
+        twin_verbose = None
+        if rng.random() < 0.4:
+            twin_verbose = rng.choice([0, 1, 2])
+        return {"history": hist, "B": bops, "endings": endings, "twin_verbose": twin_verbose,
                 "tag": "%s|%s" % (",".join(endings), b.info.get("template")), "opts": {"raw": True}}
 
     def legs(self, plan):
+        twin = plan["B"]
+        if plan.get("twin_verbose") is not None:
+            # "whatever the verbosity": the pristine twin runs B with another verbosity
+            twin = copy.deepcopy(plan["B"])
+            for op in twin:
+                if op["op"] == "solve":
+                    op["cfg"]["verbose"] = plan["twin_verbose"]
         return {"after": {"ops": plan["history"] + plan["B"], "opts": plan["opts"]},
-                "pristine": {"ops": plan["B"], "opts": plan["opts"]}}
+                "pristine": {"ops": twin, "opts": plan["opts"]}}
 
     def judged_legs(self, plan):
         return []
@@ -189,10 +206,14 @@ class C12(Prop):
                                      "detail": {"op": i, "after": str(x.get(key))[:200], "pristine": str(y.get(key))[:200]}})
                         break
                 for key in ("status", "exc_type", "value", "ncalls", "writes"):
+                    if key == "writes" and plan.get("twin_verbose") is not None:
+                        continue
                     if x.get(key) != y.get(key):
                         viol.append({"oracle": "C12/results", "signature": "solve-result-differs:" + key,
                                      "detail": {"op": i, "after": str(x.get(key))[:200], "pristine": str(y.get(key))[:200]}})
                         break
+            elif name == "release":
+                continue
             elif name == "attr":
                 if x != y:
                     viol.append({"oracle": "C12/numbering", "signature": "names-or-counters-differ",
